@@ -1133,3 +1133,22 @@ def read_task_receive_is_cancel_safe(ctx, rule):
     nested = [c for x in F.nested(b, include_self=False) for c in x.calls_to(r"TransportReceiverT::receive$")]
     kept = b.calls_to(r"stream::unfold$|stream::(poll_fn|repeat_with|once)$")
     R.check(not direct and bool(nested) and bool(kept), rule, "read_task:receive-kept-across-iterations", "the transport receive lives in a stream kept across loop iterations", "read_task polls receiver.receive() directly as a branch of its select loop (direct=%d, wrapped=%d): when another branch wins while a message is half received, the partial frame is dropped, the stream desynchronises and a response/notification the server sent is lost" % (len(direct), len(nested)), where(direct[0]) if direct else "%s:%d" % (b.file, b.lo))
+
+
+XFORM = r"str::<impl str>::(to_ascii_lowercase|to_ascii_uppercase|to_lowercase|to_uppercase|trim\w*|replace\w*|strip_\w+)$|String::(make_ascii_lowercase|make_ascii_uppercase|truncate|retain|remove|pop|insert\w*)$|<\[u8\]>::(to_ascii_lowercase|to_ascii_uppercase)$|slice::<impl \[u8\]>::(to_ascii_lowercase|to_ascii_uppercase|make_ascii_lowercase)$"
+
+
+def text_transforms(F, R, pats):
+    """names of the case/trim/replace transformations called in the bodies matching pats (and closures nested in them)"""
+    out = set()
+    found = 0
+    for pat in pats:
+        for b in F.find(pat):
+            for x in F.nested(b):
+                found += 1
+                R.fn(x)
+                for c in x.calls_to(XFORM):
+                    out.add((c.name() or "").split("::")[-1])
+    if not found:
+        raise AnchorLost("bodies matching %s" % (pats,))
+    return out
